@@ -68,6 +68,7 @@ func (c *connection) SetOnRequest(onRequest OnRequest) error {
 	if onRequest == nil {
 		return nil
 	}
+	verifPoint(vpSetOnRequestEnter, c, 0)
 	c.onRequestCallback.Store(onRequest)
 	// fix: trigger OnRequest if there is already input data.
 	if !c.inputBuffer.IsEmpty() {
